@@ -180,6 +180,82 @@ def advance_cases(rp, ctx, ops, impl):
                                  observed={'flag': flag, 'deliveries': {str(k): len(v) for k, v in got.items()}})
 
 
+def run_rpc(rp, nsides, r, h, req_fwd):
+    """an RPC round trip with the REAL BaseComponent.publish / _control_cb / _handle_rpc_msg on every side and
+    the real forwarders in between; req_fwd None = the request keeps the default of its message type"""
+    import threading as mt
+    import radical.utils as ru
+    from radical.pilot import constants as rpc
+    from radical.pilot.messages import RPCRequestMessage
+    from radical.pilot.utils.component import BaseComponent
+    net, _ = build(rp, nsides)
+    ch = rpc.CONTROL_PUBSUB
+    class NetPub(object):
+        def __init__(self, url): self.url = url
+        def put(self, topic, msg):
+            net.put(self.url, topic, ru.from_msgpack(ru.to_msgpack(msg)))
+    comps, got = [], {s: [] for s in range(nsides)}
+    for s in range(nsides):
+        c = object.__new__(BaseComponent)
+        c._uid, c._log, c._prof = 'comp.%d' % s, rpload.NullLog(), rpload.NullLog()
+        c._rpc_lock, c._rpc_reqs, c._rpc_handlers = mt.RLock(), dict(), dict()
+        c._cancel_lock, c._cancel_list = mt.RLock(), list()
+        c._publishers = {ch: NetPub('mem://%d/%s' % (s, ch))}
+        c.control_cb = lambda topic, msg: None
+        net.subscribe('mem://%d/%s' % (s, ch), c._control_cb)
+        def rec(t, m, s=s):
+            if m.get('_msg_type') == 'rpc_res':
+                got[s].append({'origin': mod_id(m.get('origin')), 'fwd': m.get('fwd'), 'body': int(m['uid'].split('.')[1])})
+        net.subscribe('mem://%d/%s' % (s, ch), rec)
+        comps.append(c)
+    comps[h].register_rpc_handler('echo', lambda x: x + 1)
+    kw = {} if req_fwd is None else {'fwd': req_fwd}
+    req = RPCRequestMessage(uid='rpc.0007', cmd='echo', args=[41], **kw)
+    comps[r]._rpc_reqs['rpc.0007'] = {'req': req, 'res': None, 'evt': mt.Event(), 'time': 0}
+    published = dict(ru.from_msgpack(ru.to_msgpack(req))).get('fwd')
+    comps[r].publish(ch, req)
+    quiet = net.run()
+    res = comps[r]._rpc_reqs['rpc.0007']['res']
+    return got, quiet, published, (None if res is None else res.val)
+
+
+def rpc_monitor(nsides, r, h, published, got, quiet, val):
+    if not quiet:
+        return ('rpc:message-circulates', 'network not quiet after 200 hops')
+    if published is not True and r != h:
+        return None                                  # the request stays on its side: nobody answers
+    for t in range(nsides):
+        # a request that was never to leave its side: only the requester's side must see the reply
+        if published is not True and t != r:
+            if len(got[t]) > 1:
+                return ('rpc:reply-delivered-2-times', 'side %d received %d copies of the reply' % (t, len(got[t])))
+            continue
+        if len(got[t]) != 1:
+            return ('rpc:reply-delivered-%d-times' % min(len(got[t]), 2),
+                    'request from side %d handled on side %d: side %d received %d copies of the reply (a forwarded control message)'
+                    % (r, h, t, len(got[t])))
+    if val != 42:
+        return ('rpc:requester-never-got-the-result', 'requester on side %d holds result %r' % (r, val))
+    return None
+
+
+def rpc_cases(rp, ctx, ops, impl):
+    nmax = ctx.n(4, 6)
+    for nsides in range(1, nmax + 1):
+        for r in range(nsides):
+            for h in range(nsides):
+                for req_fwd in (None, True, False):
+                    got, quiet, published, val = run_rpc(rp, nsides, r, h, req_fwd)
+                    op = {'op': 'rpc', 'sides': list(range(nsides)), 'fuel': 6, 'r': r, 'h': h,
+                          'msg': {'origin': None, 'fwd': published, 'body': 7}}
+                    ops.append(op); impl.append([[t, got[t]] for t in range(nsides)])
+                    ctx.case(op, nontrivial=r != h and published is True)
+                    bad = rpc_monitor(nsides, r, h, published, got, quiet, val)
+                    if bad:
+                        ctx.fail(bad[0], bad[1], {'rpc': {'nsides': nsides, 'r': r, 'h': h, 'req_fwd': req_fwd}},
+                                 observed={'replies': {str(k): len(v) for k, v in got.items()}, 'result': val})
+
+
 def run(ctx):
     rp = rpload.load()
     import radical.utils as ru
@@ -221,6 +297,11 @@ def run(ctx):
     ops, impl = [], []
     advance_cases(rp, ctx, ops, impl)
     common.compare(ctx, 'bridge', ops, impl, what='real ClientComponent / AgentComponent / BaseComponent.advance: flag on the published update (class x fwd x prof x state)')
+
+    # -- RPC round trips ------------------------------------------------------------
+    ops, impl = [], []
+    rpc_cases(rp, ctx, ops, impl)
+    common.compare(ctx, 'bridge', ops, impl, what='RPC round trip (real publish / _control_cb / _handle_rpc_msg on every side, real forwarders): deliveries of the reply per side')
 
     # -- topologies --------------------------------------------------------------
     ops, impl = [], []
@@ -282,6 +363,12 @@ def replay(ctx, data):
     i = data['input']
     if 'msgs' in i:
         return False
+    if 'rpc' in i:
+        a = i['rpc']
+        got, quiet, published, val = run_rpc(rp, a['nsides'], a['r'], a['h'], a['req_fwd'])
+        bad = rpc_monitor(a['nsides'], a['r'], a['h'], published, got, quiet, val)
+        print('observed: replies', {k: len(v) for k, v in got.items()}, 'result', val, bad)
+        return not bad
     if 'advance' in i:
         a = i['advance']
         sent = run_advance(rp, a['cls'], a['fwd'], a['prof'], a['state'])
